@@ -52,8 +52,6 @@ func (r *rep) String() string {
 		return "[]interface{}{" + r.elem.String() + "}"
 	case r.kind == "map":
 		return "map[" + r.key.String() + "]" + r.val.String()
-	case r.kind == "structmap":
-		return "struct-as-map{" + r.val.String() + "}"
 	default:
 		fs := make([]string, len(r.fields))
 		for i, f := range r.fields {
